@@ -68,7 +68,19 @@ ROUTE_POINTS = {
     'S300': ((2.0, 48.0), (5.5, 49.5)),  # ~310 km
     'T100': ((2.0, 48.0), (3.0, 48.5)),  # ~90 km: shorter than the descent alone
     'SAME': ((2.0, 48.0), (2.0, 48.0)),  # identical airports
+    # ladder of short routes along the 48th parallel (~119 ... ~269 km): straddles the lengths at which the
+    # top of climb passes the required top of descent (missions that are too short to be flown)
+    'L16': ((2.0, 48.0), (3.6, 48.0)),
+    'L20': ((2.0, 48.0), (4.0, 48.0)),
+    'L23': ((2.0, 48.0), (4.3, 48.0)),
+    'L245': ((2.0, 48.0), (4.45, 48.0)),
+    'L26': ((2.0, 48.0), (4.6, 48.0)),
+    'L275': ((2.0, 48.0), (4.75, 48.0)),
+    'L29': ((2.0, 48.0), (4.9, 48.0)),
+    'L32': ((2.0, 48.0), (5.2, 48.0)),
+    'L36': ((2.0, 48.0), (5.6, 48.0)),
 }
+LADDER = ['L16', 'L20', 'L23', 'L245', 'L26', 'L275', 'L29', 'L32', 'L36']
 REAL_ROUTES = {'BOSLAX': ('BOS', 'LAX'), 'DENABQ': ('DEN', 'ABQ'), 'LAXBOS': ('LAX', 'BOS')}
 
 # elevation alphabet (ft; None = no elevation in the file).  Boundaries of the altitude schedule for
@@ -225,6 +237,13 @@ def sublattices(tier, seed):
         'name': 'D: one phase with a degenerate step fraction',
         'axes': {'phase': ['climb', 'cruise', 'descent'], 'fraction': DEGENERATE_STEPS, 'other phases': ['1/50']},
         'cases': [_case('D', route='S300', steps=[f if k == ph else 50 for k in range(3)]) for ph in range(3) for f in DEGENERATE_STEPS],
+    })  # fmt: skip
+    lt = ['sample', 'synth3'] if tier == 'quick' else TABLES[tier]
+    ls = [[50, 50, 50]] if tier == 'quick' else [[100, 100, 100], [50, 50, 50], [25, 25, 25]]
+    subs.append({
+        'name': 'L: ladder of short routes (too short ... just flyable) x tables x steps',
+        'axes': {'route': LADDER, 'table': lt, 'steps (1/n per phase)': ls},
+        'cases': [_case('L', route=r, steps=st, table=t) for r in LADDER for t in lt for st in ls],
     })  # fmt: skip
     subs.append({
         'name': 'M: load factor x starting mass x mass iteration x routes',
